@@ -165,7 +165,8 @@ def run(ctx):
                                        "winner_failed_to_compile": "1" if "compile" in r.get("results", "").split(";") else "0",
                                        "stale_version": "1" if any(t.startswith("ok") and t != ("ok22" if r.get("scanner") == "1" else "ok2")
                                                                    for t in r.get("results", "").split(";") + [r.get("later", "")]) else "0",
-                                       "scanner": r.get("scanner", "0"), "stalekind": r.get("stalekind", "-")})
+                                       "scanner": r.get("scanner", "0"), "stalekind": r.get("stalekind", "-"),
+                                       "subsecond_gap": "1" if int(r.get("gap", "0") or 0) and int(r.get("gap", "0") or 0) < 1000000000 else "0"})
         if kv["corr"].startswith("skip"):
             corr_skip += 1
         else:
